@@ -31,13 +31,8 @@ func (e *Engine) queryText(o *Obligation, axioms []axFact, seed int, solver stri
 	if seed != 0 && solver != "cvc5" {
 		fmt.Fprintf(&b, "(set-option :smt.random_seed %d)\n(set-option :sat.random_seed %d)\n", seed, seed)
 	}
-	for _, d := range e.S.decls {
-		b.WriteString(d)
-		b.WriteByte('\n')
-	}
-	if d := e.S.distinctLits(); d != "" {
-		b.WriteString(d + "\n")
-	}
+	// the body first (axioms, facts, goal), then only the declarations it uses
+	var body bytes.Buffer
 	for _, a := range axioms {
 		if a.lemma && o.axLimit > 0 && a.idx >= o.axLimit {
 			continue
@@ -46,16 +41,31 @@ func (e *Engine) queryText(o *Obligation, axioms []axFact, seed int, solver stri
 			continue
 		}
 		for _, l := range a.lines {
-			b.WriteString(l + "\n")
+			body.WriteString(l + "\n")
 		}
 	}
 	for _, it := range o.vc.items[:o.upto] {
-		b.WriteString(it)
-		b.WriteByte('\n')
+		body.WriteString(it)
+		body.WriteByte('\n')
 	}
 	if o.pc != "" && o.pc != "true" {
-		fmt.Fprintf(&b, "(assert %s)\n", o.pc)
+		fmt.Fprintf(&body, "(assert %s)\n", o.pc)
 	}
+	needed := map[string]bool{}
+	smtTokens(body.String(), needed)
+	smtTokens(o.goal, needed)
+	e.declMu.Lock()
+	decls := e.S.prunedDecls(needed)
+	lits := e.S.distinctLits(needed)
+	e.declMu.Unlock()
+	for _, d := range decls {
+		b.WriteString(d)
+		b.WriteByte('\n')
+	}
+	if lits != "" {
+		b.WriteString(lits + "\n")
+	}
+	b.Write(body.Bytes())
 	fmt.Fprintf(&b, "(assert (not %s))\n(check-sat)\n", o.goal)
 	return b.String()
 }
